@@ -428,3 +428,44 @@ def r15_8(ctx):
                 ok = isinstance(sel.slice, ast.Tuple) and len(sel.slice.elts) == 2 and ast.unparse(sel.slice.elts[1]) == ":"
             ctx.check(ok, "BSpline.__mul__ selects coefficient rows of %s" % owner, detail="linear indexing of a coefficient matrix: only the first component of a vector-valued state enters the product (the other components are not certified)",
                       expected="%s.coeffs[idx, :]" % owner, found=ast.unparse(side), fi=f, node=st, sample={"operand": ast.unparse(side)})
+
+
+@rule("R15.9", min_instances=3, desc="spline objects are values: after construction no method assigns an attribute of self and no in-place operator (__imul__, __iadd__, ...) is defined - the re-interpreter reuses the spline of a state in every sub-expression")
+def r15_9(ctx):
+    P = ctx.prog
+    mods = [m for m in P.modules.values() if m.relpath.endswith("splines/spline.py")]
+    if not mods:
+        raise AnalysisError("rockit/splines/spline.py not found")
+    INPLACE = {"__iadd__", "__isub__", "__imul__", "__itruediv__", "__ipow__", "__imatmul__", "__ifloordiv__", "__imod__"}
+    n = 0
+    import os
+    for m in mods:
+        # the raw file: a newly added method would otherwise be treated as a new helper by the normalisation passes
+        raw = ast.parse(open(os.path.join(P.root, m.relpath)).read())
+        raw_methods = {cd.name: {x.name for x in cd.body if isinstance(x, ast.FunctionDef)} for cd in raw.body if isinstance(cd, ast.ClassDef)}
+        for c in m.classes.values():
+            chain = set(P.mro(c.name))
+            if not ({"Spline", "Basis", "BSplineBasis"} & chain) and c.name not in ("Spline", "BSpline", "BSplineBasis", "Basis"):
+                continue
+            n += 1
+            bad = ["%s.%s is defined" % (c.name, nm) for nm in sorted(raw_methods.get(c.name, set()) & INPLACE)]
+            for name, f in c.methods.items():
+                if name in ("__init__", "__setstate__"):
+                    continue
+                for st in walk_no_nested(f.node):
+                    tg = []
+                    if isinstance(st, ast.Assign):
+                        tg = st.targets
+                    elif isinstance(st, (ast.AugAssign, ast.AnnAssign)):
+                        tg = [st.target]
+                    for t in tg:
+                        for x in ([t] if not isinstance(t, ast.Tuple) else t.elts):
+                            base = x
+                            while isinstance(base, ast.Subscript):
+                                base = base.value
+                            if isinstance(base, ast.Attribute) and isinstance(base.value, ast.Name) and base.value.id == "self":
+                                bad.append("%s.%s writes self.%s" % (c.name, name, base.attr))
+            ctx.check(not bad, "%s objects are immutable after construction" % c.name, detail="an arithmetic operation changes an operand in place: a state squared once is squared everywhere it is used again (p**2 + p certified as 2*p**2)",
+                      expected="attribute writes only in __init__, no in-place operators", found="; ".join(sorted(set(bad))[:4]), fi=c.methods.get("__init__") or next(iter(c.methods.values())), sample={"class": c.name})
+    if n == 0:
+        raise AnalysisError("no spline classes found in rockit/splines/spline.py")
